@@ -1448,7 +1448,9 @@ func (p *Parser) attachSiblingsAsArgs(parentObj, targetObj *Object, numArgs uint
 		siblingObj = p.objTree.ObjectAt(siblingIndex)
 		siblingIndex = siblingObj.nextSiblingIndex
 
-		p.objTree.detach(parentObj, siblingObj)
+		// siblingObj may be a sibling of parentObj (useParentSiblings) in which
+		// case it must be detached from its actual parent
+		p.objTree.detach(p.objTree.ObjectAt(siblingObj.parentIndex), siblingObj)
 		p.objTree.append(targetObj, siblingObj)
 	}
 	return parseResultOk
